@@ -898,6 +898,33 @@ func CheckC19Tree(c *Ctx, entry, input string) {
 			}
 			c.Count("traversals_compared", 1)
 		}
+		defer func(root ast.Node) {
+			// hand-built variant of the same tree in which sibling slots of one dynamic type hold one shared instance:
+			// traversal is defined over fields, so every slot is still enumerated (done last: it rewrites the tree)
+			if len(infos) > 4000 {
+				return
+			}
+			if n := astx.ShareSiblings(root); n == 0 {
+				return
+			}
+			want := astx.Nodes(root)
+			var got []ast.Node
+			if pv, _ := callSUT(func() { ast.Inspect(root, func(n ast.Node) bool { got = append(got, n); return true }) }); pv != nil {
+				return
+			}
+			k := 0
+			for k < len(got) && k < len(want) && sameNode(got[k], want[k].Node) {
+				k++
+			}
+			if k < len(want) || len(got) != len(want) {
+				where := "<end>"
+				if k < len(want) {
+					where = want[k].Slot.Parent + "." + want[k].Slot.Field
+				}
+				c.Violate("c19:traversal-shared:"+where, entry, input, fmt.Sprintf("with sibling slots sharing one node instance, traversal visits %d nodes, the node-typed fields reach %d; first difference at visit #%d (%s)", len(got), len(want), k, where))
+			}
+			c.Count("shared_subtree_traversals_compared", 1)
+		}(root)
 		for _, in := range infos {
 			if in.TypedNil {
 				continue
